@@ -77,6 +77,10 @@ type apatEvent struct {
 	Pall   int      `json:"pall"`
 	Pbest  int      `json:"pbest"`
 	Msg    string   `json:"msg"`
+	// the sequence predicate built on the matcher (obigrep --pattern/--approx-pattern), asked when the window is
+	// the whole sequence: 1 / 0, -1 = not asked, 2 = panic or fatal
+	Pred     int `json:"pred"`
+	PredBoth int `json:"predboth"`
 }
 
 type locEvent struct {
@@ -256,6 +260,22 @@ func runScenario(pt, seq string, e, indel, b, l int, pool *seqPool, order int) a
 	n := len(calls)
 	for i := 0; i < n; i++ {
 		calls[(i*5+order)%n]() // 5 is coprime with 6: a rotation-dependent permutation
+	}
+	ev.Pred, ev.PredBoth = -1, -1
+	if b == 0 && (l == len(seq) || l < 0) { // l < 0: up to the end of the sequence
+		ask := func(both bool) int {
+			r := 0
+			if p, m := guard(func() {
+				if obiapat.IsPatternMatchSequence(pt, e, both, indel == 1)(obiseq.NewBioSequence("verif", []byte(seq), "")) {
+					r = 1
+				}
+			}); p != 0 {
+				note(m)
+				return 2
+			}
+			return r
+		}
+		ev.Pred, ev.PredBoth = ask(false), ask(true)
 	}
 	ev.Msg = msg
 	return ev
@@ -689,6 +709,23 @@ func recordC10Part(env *Env, rng *rand.Rand, count int, part int) {
 	for i := 0; i < count; i++ {
 		if i%9 == 8 {
 			recordLocate(env, rng)
+			continue
+		}
+		if part == 0 && i == 1 {
+			// one scan with tens of thousands of hits (the C-side hit stacks grow several times): a short
+			// pattern on a long low-complexity sequence
+			n := env.optInt("dense", 45000)
+			seq := make([]byte, n)
+			for k := range seq {
+				seq[k] = 'a'
+				if rng.Intn(12) == 0 {
+					seq[k] = "cgt"[rng.Intn(3)]
+				}
+			}
+			ev := runScenario("aaaa", string(seq), 1, 0, 0, -1, pool, i)
+			ev.Src = "T"
+			ev.Cls = "plen4-32/sub/e1/plain/full/dense"
+			env.emit(ev)
 			continue
 		}
 		indel := 0
